@@ -424,7 +424,8 @@ def gen_api_queries(rng, kind, metric, D, m):
         if kind == "sparse" and t in (1, 2):
             q = q * (rng.random(dim) < 0.7)
         q = np.asarray(q, dtype=np.float32).astype(np.float64)
-        if metric == "dot" and (q ** 2).sum() > 0:
+        if metric == "dot" and (q ** 2).sum() > 0 and t % 2 == 0:
+            # every other dot query is handed over unit-norm; the rest are NOT: the search must normalise them itself
             q = (q / np.sqrt((q ** 2).sum())).astype(np.float32).astype(np.float64)
         rows.append(q); zero.append(bool(metric in ("cosine", "dot") and not q.any()))
     return rows, zero
@@ -438,6 +439,7 @@ API_BASE = [
     ("dense", "cosine", True, False, False),        # zero-norm queries (D5)
     ("sparse", "euclidean", True, False, False),
     ("bits", "bit_hamming", True, False, False),
+    ("dense", "dot", False, False, False),          # normalising metric, random seeding (no tree)
 ]
 API_ROTATE = [      # quick tier: one of these per seed (JIT budget); thorough tier: all
     ("sparse", "cosine", False, False, False),
